@@ -49,6 +49,7 @@ type Loaded struct {
 	Fset  *token.FileSet
 	Plain []*LPkg // by world index
 	Test  []*LPkg // by world index; nil if the package has no _test.go file
+	XTest []*LPkg // by world index; the external test package, nil if none
 	Disk  map[string][]byte
 	// ReadFaults: file name -> fault applied to every pass.ReadFile of it in
 	// checker-sim ("eio", "empty", "short:<n>", "edited:<new content>"). Used
@@ -97,10 +98,84 @@ func Disk(w *world.World) map[string][]byte {
 // LoadAll parses and type-checks the whole world from source with one shared
 // FileSet - what go/packages.Load(LoadAllSyntax) gives the standalone driver.
 // A world that does not type-check is a generator bug.
-func LoadAll(w *world.World) (*Loaded, error) {
-	l := &Loaded{World: w, Fset: token.NewFileSet(), Disk: Disk(w)}
+func LoadAll(w *world.World) (*Loaded, error) { return LoadAllOrder(w, 0) }
+
+// WorldFaults maps the world's read faults to file names on the disk.
+func WorldFaults(w *world.World) map[string]string {
+	if w.Faults == nil {
+		return nil
+	}
+	out := map[string]string{}
+	for i := range w.Pkgs {
+		p := &w.Pkgs[i]
+		for _, f := range p.Files {
+			if k, ok := w.Faults[p.Path+"|"+f.Name]; ok {
+				out[FileName(w, p, f)] = k
+			}
+		}
+	}
+	return out
+}
+
+// ApplyReadFault turns the bytes on disk into what a faulty read returns.
+func ApplyReadFault(kind string, name string, b []byte) ([]byte, error) {
+	switch {
+	case kind == "eio":
+		return nil, fmt.Errorf("read %s: input/output error", name)
+	case kind == "empty":
+		return nil, nil
+	case strings.HasPrefix(kind, "short:"):
+		n := 0
+		fmt.Sscanf(kind, "short:%d", &n)
+		if n < len(b) {
+			return b[:n], nil
+		}
+	case strings.HasPrefix(kind, "edited:"):
+		return []byte(kind[len("edited:"):]), nil
+	}
+	return b, nil
+}
+
+// LoadAllOrder is LoadAll with a seeded PARSE order: go/packages parses the
+// files of all packages concurrently into one FileSet, so which file gets
+// which position base varies from run to run, while every package still lists
+// its files in directory order. parseSeed 0 = listed order.
+func LoadAllOrder(w *world.World, parseSeed uint64) (*Loaded, error) {
+	l := &Loaded{World: w, Fset: token.NewFileSet(), Disk: Disk(w), ReadFaults: WorldFaults(w)}
+	// parse everything first, in the seeded order
+	type pf struct{ name string }
+	var all []string
+	for i := range w.Pkgs {
+		p := &w.Pkgs[i]
+		for _, f := range p.Files {
+			all = append(all, FileName(w, p, f))
+		}
+	}
+	if parseSeed != 0 {
+		x := parseSeed
+		next := func() uint64 {
+			x += 0x9E3779B97F4A7C15
+			z := x
+			z = (z ^ (z >> 30)) * 0xBF58476D1CE4E5B9
+			z = (z ^ (z >> 27)) * 0x94D049BB133111EB
+			return z ^ (z >> 31)
+		}
+		for i := len(all) - 1; i > 0; i-- {
+			j := int(next() % uint64(i+1))
+			all[i], all[j] = all[j], all[i]
+		}
+	}
+	parsed := map[string]*ast.File{}
+	for _, name := range all {
+		af, err := parser.ParseFile(l.Fset, name, l.Disk[name], parser.ParseComments)
+		if err != nil {
+			return nil, fmt.Errorf("generated world does not parse: %v", err)
+		}
+		parsed[name] = af
+	}
 	l.Plain = make([]*LPkg, len(w.Pkgs))
 	l.Test = make([]*LPkg, len(w.Pkgs))
+	l.XTest = make([]*LPkg, len(w.Pkgs))
 	byPath := map[string]*LPkg{}
 	for i := range w.Pkgs {
 		p := &w.Pkgs[i]
@@ -113,14 +188,11 @@ func LoadAll(w *world.World) (*Loaded, error) {
 				lp.ID = fmt.Sprintf("%s [%s.test]", p.Path, p.Path)
 			}
 			for _, f := range p.Files {
-				if strings.HasSuffix(f.Name, "_test.go") && !variant {
+				if f.Name == world.ExtTestFile || (strings.HasSuffix(f.Name, "_test.go") && !variant) {
 					continue
 				}
 				name := FileName(w, p, f)
-				af, err := parser.ParseFile(l.Fset, name, l.Disk[name], parser.ParseComments)
-				if err != nil {
-					return nil, fmt.Errorf("generated world does not parse: %v", err)
-				}
+				af := parsed[name] // the plain and the test variant share the syntax trees, as in go/packages
 				lp.Files = append(lp.Files, af)
 				lp.FileNames = append(lp.FileNames, name)
 			}
@@ -145,6 +217,41 @@ func LoadAll(w *world.World) (*Loaded, error) {
 				l.Plain[i] = lp
 				byPath[p.Path] = lp
 			}
+		}
+		if p.HasExtTest() {
+			// package <name>_test: its import of p resolves to the test variant of p
+			base := l.Plain[i]
+			if l.Test[i] != nil {
+				base = l.Test[i]
+			}
+			xp := &LPkg{ID: fmt.Sprintf("%s_test [%s.test]", p.Path, p.Path), Path: p.Path + "_test", Name: p.Name + "_test", Index: i, TestVar: true, Imports: map[string]*LPkg{}, Info: newInfo()}
+			for _, f := range p.Files {
+				if f.Name == world.ExtTestFile {
+					name := FileName(w, p, f)
+					xp.Files = append(xp.Files, parsed[name])
+					xp.FileNames = append(xp.FileNames, name)
+				}
+			}
+			tc := &types.Config{
+				Importer: importerFunc(func(path string) (*types.Package, error) {
+					if path == p.Path {
+						xp.Imports[path] = base
+						return base.Types, nil
+					}
+					if dep, ok := byPath[path]; ok {
+						xp.Imports[path] = dep
+						return dep.Types, nil
+					}
+					return nil, fmt.Errorf("external test of %s imports unknown %q", p.Path, path)
+				}),
+				Sizes: types.SizesFor("gc", "amd64"),
+			}
+			tp, err := tc.Check(xp.Path, l.Fset, xp.Files, xp.Info)
+			if err != nil {
+				return nil, fmt.Errorf("generated world does not type-check: %v", err)
+			}
+			xp.Types = tp
+			l.XTest[i] = xp
 		}
 	}
 	return l, nil
@@ -198,6 +305,18 @@ func (o *Outcome) Normalise() {
 	for p, es := range o.Errors {
 		sort.Strings(es)
 		o.Errors[p] = es
+		// a panicking action takes the whole process down in the real drivers;
+		// what the stubs salvage around it is not comparable: keep only the panic
+		var panics []string
+		for _, e := range es {
+			if strings.Contains(e, ": panic: ") {
+				panics = append(panics, e)
+			}
+		}
+		if len(panics) > 0 {
+			o.Errors[p] = panics
+			o.Diags[p] = nil
+		}
 	}
 }
 
